@@ -41,14 +41,15 @@ def mix(a, b):
     x ^= x >> 31
     return x % 1_000_000
 
+# workload seed mod 3 selects the slot: fresh AmbientSlot / process-wide shared slot / process-wide internal slot
 if tier == "thorough":
-    workloads = [mix(seed, i) for i in range(8)]
+    workloads = [mix(seed, i) * 3 + i % 3 for i in range(9)]
     rates = ["0.02", "0.1", "0.5"]
     nseeds = 128
 else:
-    workloads = [mix(seed, i) for i in range(2)]
+    workloads = [mix(seed, i) * 3 + i % 3 for i in range(3)]
     rates = ["0.05", "0.3"]
-    nseeds = 32
+    nseeds = 24
 
 # build once (and fail as a harness error if that does not work)
 b = subprocess.run(["cargo", "+nightly", "miri", "setup"], cwd=f"{VERIF}/slot", capture_output=True, text=True,
@@ -127,13 +128,13 @@ doc = {
     "coverage": {
         "evaluations": evaluations,
         "distinct_nontrivial": len(sigs),
-        "rule": "one execution = one (workload shape from VERIF_SEED: 2-4 racing initialisers incl. one init_slot under catch_unwind, 1-3 observers x 3-6 rounds, per-thread yield counts) x miri preemption rate x miri seed; every execution races initialisers with observers, so all are non-trivial; distinct = distinct outcome signature (who won, how each loser failed, at which round each observer first saw the slot enabled, records delivered) per workload",
+        "rule": "one execution = one (workload shape from VERIF_SEED: slot kind fresh / shared / internal, 2-4 racing initialisers incl. one init_slot under catch_unwind, 1-3 observers x 3-6 rounds, per-thread yield counts) x miri preemption rate x miri seed; every execution races initialisers with observers, so all are non-trivial; distinct = distinct outcome signature (who won, how each loser failed, at which round each observer first saw the slot enabled, records delivered) per workload",
         "samples": samples,
         "workloads": workloads, "preemption_rates": rates, "miri_seeds_per_cell": nseeds,
         "distinct_winner_patterns": len(winners),
         "executions_per_hour": int(evaluations / wall * 3600) if wall > 0 else 0,
         "fault_kinds": {"preemption_inside_OnceLock_and_get": "miri's seeded scheduler preempts at basic-block granularity (rate as listed) with weak-memory emulation and data-race detection"},
-        "real_vs_stub": {"real": ["emit_core::runtime::AmbientSlot (OnceLock, unsafe pointer cast in get)", "Setup::{try_init_slot, init_slot}", "emit!/new_span! through slot.get()", "std::sync::OnceLock (interpreted by miri)"],
+        "real_vs_stub": {"real": ["emit_core::runtime::{AmbientSlot, AmbientInternalSlot, shared_slot, internal_slot} (OnceLock, unsafe pointer cast in get)", "Setup::{try_init_slot, init_slot, try_init, init, try_init_internal, init_internal}", "Init::{get, emitter, ctxt, blocking_flush, flush_on_drop}, InitGuard::inner", "emit!/new_span! through slot.get() and through the winner's Init::get()", "std::sync::OnceLock (interpreted by miri)"],
                           "simulated": ["OS scheduler (miri, seeded)", "clock/rng/ctxt/filter/emitter are tagged stubs so torn configurations are visible"]},
         "reported": reported,
     },
